@@ -492,7 +492,7 @@ theorem sim_run (c : Cfg) (x : CSess) (h : HState) (free : List Seg) (ops : List
 
 /-- a freshly constructed arena is related to the initial abstract history state -/
 theorem sim_init (o : Opts) (s : St) (h : o.init = some s) (hcap : o.cap + 8192 ≤ TWO32)
-    (hms : o.minSeg < TWO32) (hr : 1 ≤ o.retries ∧ o.retries ≤ 255) :
+    (hms : o.minSeg < TWO32) (hr : o.retries ≤ 255) :
     Rel o.cfg { st := s, held := [], detached := [] } (HState.init o.cap o.dataOffset o.minSeg) [] := by
   obtain ⟨hc, habs, _, _⟩ := init_cinv o s h hcap hms hr
   have h1 : 1 ≤ o.cfg.dataOffset := hc.wf.lo
